@@ -206,6 +206,19 @@ func (x *Unit) lookupLocal(st *State, name string, c *specCtx) types.Object {
 		return nil
 	}
 	_, o := c.scope.LookupParent(name, c.pos)
+	if o == nil || o.Parent() == types.Universe || (o.Pkg() != nil && o.Parent() == o.Pkg().Scope()) {
+		// inside a helper executed in place, a clause of the caller's contract names the caller's variables
+		for i := len(x.inlineSites) - 1; i >= 0; i-- {
+			site := x.inlineSites[i]
+			if sc := site.pkg.Scope().Innermost(site.call.Pos()); sc != nil {
+				if _, o2 := sc.LookupParent(name, site.call.End()); o2 != nil && o2.Parent() != types.Universe && !(o2.Pkg() != nil && o2.Parent() == o2.Pkg().Scope()) {
+					if _, isPkg := o2.(*types.PkgName); !isPkg {
+						return o2
+					}
+				}
+			}
+		}
+	}
 	if o == nil {
 		return nil
 	}
